@@ -426,6 +426,85 @@ def truthy_index(scores):
     return best
 
 
+def trap_is_literal(order):
+    return [] if order is 0 else [order]
+
+
+def trap_is_none_ok(order):
+    return [] if order is None else [order]
+
+
+def trap_none_result(edges):
+    ordered = list(edges)
+    ordered = ordered.sort()
+    return ordered
+
+
+def trap_none_result_ok(edges):
+    ordered = list(edges)
+    ordered.sort()
+    return ordered
+
+
+def trap_late_bind(sizes):
+    tests = []
+    for s in sizes:
+        tests.append(lambda e: len(e) == s)
+    return tests
+
+
+def trap_late_bind_ok(sizes, edges):
+    kept = []
+    for s in sizes:
+        kept.extend(filter(lambda e: len(e) == s, edges))
+    return kept
+
+
+def lossy_merged(edges):
+    seen = {}
+    for edge in edges:
+        seen[frozenset(edge[0] + edge[1])] = edge
+    return list(seen.values())
+
+
+def lossy_merged_ok(edges):
+    seen = {}
+    for edge in edges:
+        seen[(frozenset(edge[0]), frozenset(edge[1]))] = edge
+    return list(seen.values())
+
+
+def lossy_multiset(tuples):
+    cache = {}
+    for t in tuples:
+        cache.setdefault((t[0], frozenset(t[1:])), t)
+    return cache
+
+
+class Tri:
+    def __init__(self):
+        self.matching = None
+
+    def lower(self):
+        self.matching = False
+
+    def finish(self):
+        if not self.matching:
+            self.matching = True
+
+    def finish_ok(self):
+        if self.matching is None:
+            self.matching = True
+
+
+def trace_mul(w, gram):
+    return np.trace(w * gram)
+
+
+def trace_matmul_ok(w, gram):
+    return np.trace(w @ gram)
+
+
 def truthy_index_ok(scores):
     best = None
     top = float("-inf")
@@ -470,6 +549,19 @@ _PROBE_EXPECT = {
     "zip_align_ok": ("G-ZIPALIGN", False),
     "truthy_index": ("G-TRUTHY0", True),
     "truthy_index_ok": ("G-TRUTHY0", False),
+    "trap_is_literal": ("G-PYTRAP", True),
+    "trap_is_none_ok": ("G-PYTRAP", False),
+    "trap_none_result": ("G-PYTRAP", True),
+    "trap_none_result_ok": ("G-PYTRAP", False),
+    "trap_late_bind": ("G-PYTRAP", True),
+    "trap_late_bind_ok": ("G-PYTRAP", False),
+    "lossy_merged": ("G-LOSSYKEY", True),
+    "lossy_merged_ok": ("G-LOSSYKEY", False),
+    "lossy_multiset": ("G-LOSSYKEY", True),
+    "Tri.finish": ("G-TRISTATE", True),
+    "Tri.finish_ok": ("G-TRISTATE", False),
+    "trace_mul": ("N-TRACEMUL", True),
+    "trace_matmul_ok": ("N-TRACEMUL", False),
 }
 
 
@@ -481,7 +573,7 @@ def lint_pack_controls(repo: str) -> dict:
     from .effects import check_shared_literals
     from .report import Result
 
-    fns = {"G-STALE": L.check_stale_in_loop, "G-REUSE": L.check_iterator_reuse, "N-FANCYAUG": L.check_fancy_augassign, "G-GROUPBY": L.check_groupby_sorted, "E-SHARED": check_shared_literals, "G-LIVEITER": L.check_mutation_while_iterating, "E-DEFAULTARG": L.check_mutable_defaults, "G-KEYPROJ": L.check_key_projection, "K-OWNER": L.check_id_owner, "G-COUNTERADD": L.check_counter_arith, "G-ZEROBUCKET": L.check_zero_buckets, "G-LENVALID": L.check_len_validated_cache, "G-SHAPEGUESS": L.check_layout_guess, "K-LABELTYPE": L.check_label_type_dispatch, "G-ZIPALIGN": L.check_zip_alignment, "G-TRUTHY0": L.check_truthy_index}
+    fns = {"G-STALE": L.check_stale_in_loop, "G-REUSE": L.check_iterator_reuse, "N-FANCYAUG": L.check_fancy_augassign, "G-GROUPBY": L.check_groupby_sorted, "E-SHARED": check_shared_literals, "G-LIVEITER": L.check_mutation_while_iterating, "E-DEFAULTARG": L.check_mutable_defaults, "G-KEYPROJ": L.check_key_projection, "K-OWNER": L.check_id_owner, "G-COUNTERADD": L.check_counter_arith, "G-ZEROBUCKET": L.check_zero_buckets, "G-LENVALID": L.check_len_validated_cache, "G-SHAPEGUESS": L.check_layout_guess, "K-LABELTYPE": L.check_label_type_dispatch, "G-ZIPALIGN": L.check_zip_alignment, "G-TRUTHY0": L.check_truthy_index, "G-PYTRAP": L.check_python_traps, "G-LOSSYKEY": L.check_lossy_keys, "G-TRISTATE": L.check_tristate_flag, "N-TRACEMUL": L.check_trace_of_elementwise}
     ctx = Ctx(repo, "quick", overrides={_PROBE_REL: _PROBE_SRC})
     out = {"controls": [], "broken": []}
     for name, (rule, must) in _PROBE_EXPECT.items():
